@@ -1,10 +1,11 @@
-N = {"quick": 110, "thorough": 1500}
+N = {"quick": 72, "thorough": 1200}
 PROP = dict(
     id="C12",
     module="FV.C12.Props",
     coq_targets=["theories/C12/Props.vo"],
     theorems=["affine_compose_apply", "affine_laws", "affine_det_multiplicative",
               "inline_preserves_resolve", "decompose_preserves_resolve", "decompose_no_spurious_contours",
+              "decompose_loses_no_contour", "affine_key_equality",
               "decompose_multiset_refuted", "flatten_preserves_resolve", "split_preserves_resolve",
               "replacement_preserves_all_glyphs", "options_keep_every_glyph", "option_lattice",
               "flatten_overflow_refuted", "quantisation_bound", "quantisation_one_unit_per_level"],
@@ -12,7 +13,7 @@ PROP = dict(
             "Close Scope Qc_scope.\nClose Scope Q_scope.",
     harness_args=lambda tier, seed: ["--seed", str(seed), "--n", str(N[tier]), "--threads", "16"],
     env={"RAYON_NUM_THREADS": "1"},
-    shard=6,
+    shard=8,
     rule="generated UFO / 2-3 master designspace sources: 1-3 contour glyphs (lines, quadratic segments with one or "
          "two off-curve points, a minority with quarter/half-unit coordinates), an optional empty glyph, 1-6 composites "
          "up to nesting depth 6 with 1-3 components each, drawn from identity / dyadic scale / flip / 90-degree "
@@ -54,8 +55,10 @@ MANIFEST = dict(
          "identical list) and its advance; replacing a glyph by one that looks the same keeps the look of every glyph "
          "that uses it; the whole pass under every one of the 16 option subsets keeps every source glyph's resolved "
          "contours and advance and any two subsets agree, whenever the run reports that no contour was passed over; "
-         "machine-checked counterexamples for the two ways this fails (visited-set merge of identical nested component "
-         "instances; flattening composing a 2x2 out of F2Dot14 range, which the backend saturates); explicit rounding "
+         "decomposition never invents a contour and never loses one (its visited set only drops repetitions); "
+         "machine-checked counterexamples for the two ways the statement fails (visited-set merge of identical nested "
+         "component instances changes the contour multiset; flattening composes a 2x2 out of F2Dot14 range, which the "
+         "backend saturates); explicit rounding "
          "bound per nesting level for stored composites against decomposed outlines, and 'one unit per level' for "
          "non-magnifying chains. Tied to the code on every run: sources built under all option subsets, outlines and "
          "advances compared with skrifa at every master against the resolved source, IR compared with the model.",
